@@ -914,8 +914,17 @@ def run_C15(ctx):
         if rhs and not rhs.startswith("r[") and not rhs.startswith("r("):
             progs["literal-let"] = "let lit = %s\nrule r {\n%s%s%s %s %%lit\n}\n" % (rhs, neg, some, q, op)
             progs["literal-rule-let"] = "rule r {\nlet lit = %s\n%s%s%s %s %%lit\n}\n" % (rhs, neg, some, q, op)
+        # every reference to a variable sees the same value: the same rule with and without an EARLIER reference
+        # (a `some` variable over a selection that mixes present and missing values, at file and at rule scope)
+        mxq = g.ch(["mx[*].t", "mx[*].u.w", "mx[ t exists ].t", "mx[*]"])
+        body = "%%sv exists\n%%sv %s\n" % g.ch(["<= 100", "!empty", "is_int", "in [1, 2, 3]"])
+        progs["some-ref1"] = "let sv = some %s\nrule r {\n%s}\n" % (mxq, body)
+        progs["some-ref2"] = "let sv = some %s\nrule q0 {\n%%sv exists\n}\nrule r {\n%s}\n" % (mxq, body)
+        progs["some-ref3"] = "rule r {\nlet sv = some %s\n%%sv exists\n%%sv exists\n%s}\n" % (mxq, body)
+        progs["all-ref1"] = "let sv = %s\nrule r {\n%s}\n" % (mxq, body)
+        progs["all-ref2"] = "let sv = %s\nrule q0 {\nsome %%sv exists\n}\nrule r {\n%s}\n" % (mxq, body)
         # block scope: evaluate inside a block over a wrapper value
-        data = json.dumps({"ctx": d, **d})
+        data = json.dumps({"ctx": d, **d, "mx": [{"t": 1, "u": {"w": 2}}, {}, {"t": 2, "u": {}}]})
         if not skip_empty_exception:
             progs["block-inline"] = "rule r {\nctx {\n%s\n}\n}\n" % clause(q)
             progs["block-let"] = "rule r {\nctx {\nlet v = %s\n%s\n}\n}\n" % (q, clause("%v"))
@@ -938,8 +947,14 @@ def run_C15(ctx):
             res.stats["c15-base-error"] += 1
             continue
         res.nontrivial.add((q, op, rhs))
+        for a_, b_ in (("some-ref1", "some-ref2"), ("some-ref1", "some-ref3"), ("all-ref1", "all-ref2")):
+            res.stats["c15-site:" + b_] += 1
+            if st(a_) != st(b_):
+                res.judge_failures.append({"what": "an earlier reference to a variable changes what a later reference sees: rule r is %s alone and %s after another reference" % (st(a_), st(b_)),
+                                           "class": "c15-same-value", "rules": results[idx[b_]]["case"]["rules"],
+                                           "base_rules": results[idx[a_]]["case"]["rules"], "data": results[idx[b_]]["case"]["data"]})
         for k in idx:
-            if k in ("inline", "block-inline", "block-let"):
+            if k in ("inline", "block-inline", "block-let") or k.startswith(("some-ref", "all-ref")):
                 continue
             res.stats["c15-site:" + k] += 1
             if st(k) != base:
@@ -1537,6 +1552,12 @@ def run_C17(ctx):
         if overlap:
             dup = rng.choice(list(data.keys()) + [kk for p in params[1:] for kk in p] or list(data.keys()))
             params[0][dup] = 1
+            if rng.random() < 0.5:
+                # the same key holding a STRUCT in both sources is a conflict like any other
+                params[0][dup] = {"m1": 1, "shared": {"a": 1}}
+                for src in [data] + params[1:]:
+                    if dup in src:
+                        src[dup] = {"m2": 2, "shared": {"b": 2}}
         merged = {}
         for pdoc in params:
             merged.update(pdoc)
@@ -1554,9 +1575,10 @@ def run_C17(ctx):
         flags = ["--structured", "-o", "json", "-S", "none"] if structured else ["-S", "all"]
         files = {"r.guard": rules, "d.json": json.dumps(data), "m.json": json.dumps(merged)}
         iargs = []
+        pname = (lambda j: "p%d.json" % j) if i % 2 else (lambda j: "pdir%d/params.json" % j)    # same base name in several directories
         for j, pdoc in enumerate(params):
-            files["p%d.json" % j] = json.dumps(pdoc)
-            iargs += ["-i", "{DIR}/p%d.json" % j]
+            files[pname(j)] = json.dumps(pdoc)
+            iargs += ["-i", "{DIR}/" + pname(j)]
         base = len(jobs)
         jobs.append({"argv": ["validate", "-r", "{DIR}/r.guard", "-d", "{DIR}/d.json"] + iargs + flags, "files": files})
         jobs.append({"argv": ["validate", "-r", "{DIR}/r.guard", "-d", "{DIR}/m.json"] + flags, "files": files})
@@ -1565,7 +1587,7 @@ def run_C17(ctx):
             for pm in list(itertools.permutations(range(len(params))))[1:3]:
                 ia = []
                 for j in pm:
-                    ia += ["-i", "{DIR}/p%d.json" % j]
+                    ia += ["-i", "{DIR}/" + pname(j)]
                 perm_idx.append(len(jobs))
                 jobs.append({"argv": ["validate", "-r", "{DIR}/r.guard", "-d", "{DIR}/d.json"] + ia + flags, "files": files})
         two = None
@@ -1842,6 +1864,16 @@ def run_C16(ctx):
                           [(sp["name"], f[0], True) for sp, tc in zip(s["specs"], cases) for f in tc["failed"]])
             if got != want:
                 res.judge_failures.append(dict(info, what="JUnit cases %s disagree with JSON rendering %s" % (got, want), **{"class": "c16-format"}))
+            # the totals the XML states about itself
+            for el in [root] + list(root.iter("testsuite")):
+                nf = sum(1 for t in el.iter("testcase") if t.find("failure") is not None)
+                ne = sum(1 for t in el.iter("testcase") if t.find("error") is not None)
+                if el.get("failures") is not None and int(el.get("failures")) != nf:
+                    res.judge_failures.append(dict(info, what="JUnit <%s failures=%s> but it contains %d failed test cases" % (el.tag, el.get("failures"), nf), **{"class": "c16-junit-totals"}))
+                if el.get("errors") is not None and int(el.get("errors")) != ne:
+                    res.judge_failures.append(dict(info, what="JUnit <%s errors=%s> but it contains %d test cases in error" % (el.tag, el.get("errors"), ne), **{"class": "c16-junit-totals"}))
+                if el.tag == "testsuites" and el.get("tests") is not None and int(el.get("tests")) != sum(1 for _ in el.iter("testcase")):
+                    res.judge_failures.append(dict(info, what="JUnit <testsuites tests=%s> but it contains %d test cases" % (el.get("tests"), sum(1 for _ in el.iter("testcase"))), **{"class": "c16-junit-totals"}))
         except ET.ParseError as e:
             res.judge_failures.append(dict(info, what="JUnit output is not well-formed XML: %s" % e, **{"class": "c16-format"}))
         if si < 2:
